@@ -129,7 +129,19 @@ fn json_fault(s: &mut Stream, text: &str) -> Option<(String, Expect, bool)> {
                     Some((val.to_string(), reject_json("json-missing-field-in-outcome"), not_first))
                 }
                 4 => {
-                    let bad = [json!(0.0), json!(-1.0), json!(-0.0)][s.below(3)].clone();
+                    let which = s.below(5);
+                    if which >= 3 {
+                        // every weight of the node negative (their total is negative too, so the
+                        // normalised values would be positive again)
+                        let f = if which == 3 { -1.0 } else { -2.0 };
+                        for key in keys.iter() {
+                            let o = outs.get_mut(key)?.as_object_mut()?;
+                            let w = o.get("prob")?.as_f64()?;
+                            o.insert("prob".into(), json!(w * f));
+                        }
+                        return Some((val.to_string(), reject_game("json-all-probabilities-negative"), not_first));
+                    }
+                    let bad = [json!(0.0), json!(-1.0), json!(-0.0)][which].clone();
                     outs.get_mut(k)?.as_object_mut()?.insert("prob".into(), bad);
                     Some((val.to_string(), reject_game("json-non-positive-probability"), not_first))
                 }
